@@ -70,7 +70,12 @@ func (s *vSub) Execute(ctx context.Context, input any) (string, any, error) {
 	case <-s.gate:
 	case <-ctx.Done():
 	}
-	kind := verifrt.Choice("item-outcome", 3)
+	kind := 0
+	if len(s.outcome) > 0 && s.outcome[k%len(s.outcome)] >= 0 {
+		kind = s.outcome[k%len(s.outcome)] // scripted
+	} else {
+		kind = verifrt.Choice("item-outcome", 3)
+	}
 	out := verifrt.NondetVal("item-out")
 	verifAtomicLeave(s, k, kind, out)
 	switch kind {
